@@ -70,6 +70,7 @@ where
             .read_values(prev_holes_len, SIZE_OF_U64, usize::from_bytes)?
             .into_iter()
             .collect();
+        c.expect_end()?;
 
         Ok(RawChangeData {
             base,
